@@ -129,6 +129,7 @@ def CueTextTokenizer(cue_text: str):
 
       elif state is _State.data_cref:
         if c == ord(";"):
+          buffer.append(";")
           coded_entity = str(buffer)
           decoded_entity = html.unescape(coded_entity)
           if decoded_entity == coded_entity :
@@ -215,6 +216,7 @@ def CueTextTokenizer(cue_text: str):
 
       elif state is _State.annot_cref:
         if c == ord(";"):
+          cref.append(";")
           coded_entity = str(cref)
           decoded_entity = html.unescape(coded_entity)
           if decoded_entity == coded_entity:
